@@ -73,6 +73,10 @@ func slice(v any, start, stop int) any {
 			stop = l
 		}
 
+		if start >= stop {
+			return ""
+		}
+
 		for i := 0; i < start; i++ {
 			_, sz := utf8.DecodeRuneInString(s)
 			s = s[sz:]
@@ -80,7 +84,7 @@ func slice(v any, start, stop int) any {
 
 		idx := 0
 		for i := start; i < stop; i++ {
-			_, sz := utf8.DecodeRuneInString(s)
+			_, sz := utf8.DecodeRuneInString(s[idx:])
 			idx += sz
 		}
 
